@@ -669,9 +669,10 @@ pub fn run_entry<K: KeyT, V: ValT>(m: &mut M<K, V>, _other: &mut M<K, V>, name: 
             let old = std::mem::replace(m, new_map());
             let mut out = Vec::new();
             {
+                let total = old.len();
                 let mut it = old.into_keys();
-                for _ in 0..n(0) {
-                    match it.next() {
+                for i in 0..n(0) {
+                    match crate::exec::next_exact(&mut it, total - std::cmp::min(i as usize, total)) {
                         Some(k) => {
                             out.push(fmt_k(&k));
                             quiet();
@@ -688,9 +689,10 @@ pub fn run_entry<K: KeyT, V: ValT>(m: &mut M<K, V>, _other: &mut M<K, V>, name: 
             let old = std::mem::replace(m, new_map());
             let mut out = Vec::new();
             {
+                let total = old.len();
                 let mut it = old.into_values();
-                for _ in 0..n(0) {
-                    match it.next() {
+                for i in 0..n(0) {
+                    match crate::exec::next_exact(&mut it, total - std::cmp::min(i as usize, total)) {
                         Some(v) => {
                             out.push(fmt_v::<K, V>(&v));
                             quiet();
